@@ -9,6 +9,7 @@ claimed = {
  "C13": ("proof", "Optimize/removeUnusedRegionsAndStyles: kept regions = used regions, kept styles are a subset containing every directly used style, closed under inheritance (closure) and supported (nothing else is kept), values and cues untouched (frame); RemoveStyling: maps empty, every cue/run style pointer nil, only styling fields assigned (frame). Five nested/map-range loop invariants incl. a ghost frontier for the parent walk.", "contracts on Subtitles.Optimize, removeUnusedRegionsAndStyles, RemoveStyling; map-range loops with ghost visited sets; SMT discharge", "4 C13"),
  "C15": ("proof", "ApplyLinearCorrection under an IEEE-754 rounding model (monotone correctly-rounded operations, relative error 2^-53): every boundary is within 1 microsecond of the affine map through the two reference points (nonlinear real lemma), boundary order is preserved, list order/identity untouched; only StartAt/EndAt assigned (frame).", "contract on Subtitles.ApplyLinearCorrection; float rounding model as uninterpreted monotone functions; NRA lemma; SMT discharge", "4 C15"),
  "C16": ("proof", "Timestamp codec kernels: formatDuration's output is proved equal (as a concatenation rope) to the canonical hh:mm:ss<sep>fraction rendering with the exact integer fields, with truncation, range and monotonicity lemmas; per-format wrappers (SRT/WebVTT/SSA) use the right separator and digit count; STL byte and string timecodes have the exact h/m/s/frame fields; format(parse(b)) == b at 25 and 30 fps (after repair of a genuine defect), parse(format(t)) is the frame boundary at or before t, a second write is identical. float64 steps are justified by QF_BVFP library lemmas discharged on every run. Reader-side parse-after-format for the text formats is a bounded stand-in (thorough tier), not proved.", "contracts on formatDuration*, format/parseDurationSTL*; lemma harnesses; FP library lemmas; bounded stand-in for parse(format(t))", "4 C16"),
+ "C17": ("proof", "The two repository-owned delivery mechanisms: (1) the scanner's split function is prefix-stable -- a 2-run lemma harness over the real closure (after repair of a genuine CR/LF defect); (2) readNBytes returns exactly the next c bytes of the reader's ghost byte stream for every delivery schedule (short reads, data-with-EOF), io.EOF only at a clean end (after repair of a genuine defect); (3) syntactic frame: io.Reader parameters flow only into these mechanisms / the XML decoder / the TS demultiplexer. Library decoders are assumed delivery-independent.", "lemma harness on newScanner's split closure, contract on readNBytes against a ghost-stream io.Reader contract, reader-flow check", "4 C17"),
  "C14": ("proof", "Full functional contract of ForceDuration and Duration: kept/trimmed/removed cues characterised per index, filler presence/shape, resulting duration; one loop invariant; every path discharged.", "contracts on Subtitles.ForceDuration / Duration, SMT discharge", "4 C14"),
 }
 na = {
